@@ -112,14 +112,55 @@ func cmdFlush(x *ctcpSess, mark int) []string {
 
 // cmdExec runs Execute and returns the invocations (Fn runs in a goroutine of its own:
 // wait until every goroutine started by the call has ended) and the lines written.
+// execBlocked is the line cmdExec reports instead of waiting for ever.
+const execBlocked = "?execute-blocked"
+
+// blockDeadline: how long a call may make no progress before the harness gives it up (the
+// goroutine is abandoned, the verdict is class execute-blocked).  Generous, because only
+// a wedged implementation ever gets there; once a run has seen three such verdicts the
+// following cases only confirm them quickly, so that a wedged build fails in minutes.
+var blockedVerdicts int32
+
+func blockDeadline() time.Duration {
+	if atomic.LoadInt32(&blockedVerdicts) >= 3 {
+		return 10 * time.Millisecond
+	}
+	return 5 * time.Second
+}
+
+// goExecute runs Execute on a goroutine of its own, so that the harness can give it up;
+// a panic of Execute is handed back through the returned channel (nil = returned normally).
+func goExecute(ch *cmdhandler.CmdHandler, c *girc.Client, e girc.Event) chan interface{} {
+	done := make(chan interface{}, 1)
+	go func() {
+		defer func() { done <- recover() }()
+		ch.Execute(c, e)
+	}()
+	return done
+}
+
 func cmdExec(x *ctcpSess, ch *cmdhandler.CmdHandler, e girc.Event) (invs []cmdInv, lines []string) {
 	for len(cmdRec) > 0 {
 		<-cmdRec
 	}
 	mark := x.s.Mark()
 	base := runtime.NumGoroutine()
-	ch.Execute(x.s.C, e)
-	waitUntil(10*time.Second, func() bool { return runtime.NumGoroutine() <= base })
+	done := goExecute(ch, x.s.C, e)
+	timer := time.NewTimer(blockDeadline())
+	select {
+	case p := <-done:
+		timer.Stop()
+		if p != nil {
+			panic(p)
+		}
+	case <-timer.C:
+		atomic.AddInt32(&blockedVerdicts, 1)
+		return nil, []string{execBlocked}
+	}
+	if !waitUntil(blockDeadline(), func() bool { return runtime.NumGoroutine() <= base }) {
+		atomic.AddInt32(&blockedVerdicts, 1)
+		return nil, append(cmdFlush(x, mark), execBlocked)
+	}
 	lines = cmdFlush(x, mark)
 	for len(cmdRec) > 0 {
 		invs = append(invs, <-cmdRec)
@@ -368,6 +409,9 @@ func cmdObs(e girc.Event, invs []cmdInv, lines []string) string {
 		return "?" + Hex(l)
 	}
 	genericTail := "type '\x02!help \x0302<command>\x03\x02' to optionally get more info about a specific command."
+	if len(lines) > 0 && lines[len(lines)-1] == execBlocked {
+		return execBlocked
+	}
 	switch {
 	case len(invs) == 0 && len(lines) == 0:
 		return "-"
@@ -407,6 +451,9 @@ func cmdOracle(prefix string, e girc.Event, table map[string]cmdReg, invs []cmdI
 			addressed = false
 		}
 	}
+	if len(lines) > 0 && lines[len(lines)-1] == execBlocked {
+		return "execute-blocked: Execute did not return, or the function it started did not end, within the deadline", m
+	}
 	switch {
 	case len(invs) > 1:
 		return "exec-multiple: more than one invocation for one message", m
@@ -438,7 +485,11 @@ type seqState struct {
 	cur     int
 	gate    chan struct{}
 	arrived int32
+	running int32 // Execute calls of the harness that have not returned
 	done    chan seqInv
+	ch      *cmdhandler.CmdHandler
+	reent   bool  // the functions use their own handler (ch.Add) before they wait
+	addErrs int32 // ... and count the registrations that were wrongly accepted
 }
 
 type seqInv struct {
@@ -459,10 +510,44 @@ func (st *seqState) reset() {
 	st.cur, st.gate, st.done = 0, make(chan struct{}), make(chan seqInv, 64)
 	st.mu.Unlock()
 	atomic.StoreInt32(&st.arrived, 0)
+	atomic.StoreInt32(&st.running, 0)
+}
+
+// execute starts Execute on a goroutine the harness can abandon.
+func (st *seqState) execute(c *girc.Client, e girc.Event, panics chan interface{}) chan struct{} {
+	ret := make(chan struct{})
+	atomic.AddInt32(&st.running, 1)
+	go func() {
+		defer func() {
+			if p := recover(); p != nil {
+				panics <- p
+			}
+			atomic.AddInt32(&st.running, -1)
+			close(ret)
+		}()
+		st.ch.Execute(c, e)
+	}()
+	return ret
+}
+
+func isClosed(c chan struct{}) bool {
+	select {
+	case <-c:
+		return true
+	default:
+		return false
+	}
 }
 
 func (st *seqState) fn(id int, name string) func(*girc.Client, *cmdhandler.Input) {
 	return func(c *girc.Client, in *cmdhandler.Input) {
+		if st.reent {
+			// a command may use its handler: registering its own name again must be refused
+			// (and must not wait for this very function to return)
+			if st.ch.Add(&cmdhandler.Command{Name: strings.ToLower(name), Fn: func(*girc.Client, *cmdhandler.Input) {}}) == nil {
+				atomic.AddInt32(&st.addErrs, 1)
+			}
+		}
 		st.mu.Lock()
 		inv := seqInv{idx: st.cur, early: snapshotInput(id, name, in)}
 		gate, done := st.gate, st.done
@@ -474,27 +559,31 @@ func (st *seqState) fn(id int, name string) func(*girc.Client, *cmdhandler.Input
 	}
 }
 
-// settled: every function started so far sits at the gate (base = goroutines before the pass).
-func (st *seqState) settle(base int) {
-	waitUntil(10*time.Second, func() bool {
-		return runtime.NumGoroutine() <= base+int(atomic.LoadInt32(&st.arrived))
-	})
+// accounted: every goroutine beyond base is an Execute call still running or a function at
+// the gate, i.e. nothing that a call started is still on its way to the gate.
+func (st *seqState) accounted(base int) bool {
+	return runtime.NumGoroutine() <= base+int(atomic.LoadInt32(&st.running))+int(atomic.LoadInt32(&st.arrived))
 }
 
-func (st *seqState) release(base int) []seqInv {
+// release opens the gate and collects what the functions see now; ok is false when a
+// function or an Execute call has still not ended blockDeadline later.
+func (st *seqState) release(base int) (out []seqInv, ok bool) {
 	n := int(atomic.LoadInt32(&st.arrived))
 	close(st.gate)
-	out := make([]seqInv, 0, n)
-	for i := 0; i < n; i++ {
+	ok = waitUntil(blockDeadline(), func() bool {
+		return atomic.LoadInt32(&st.running) == 0 && runtime.NumGoroutine() <= base
+	})
+	for {
 		select {
 		case v := <-st.done:
 			out = append(out, v)
-		case <-time.After(10 * time.Second):
-			return out
+			continue
+		default:
 		}
+		break
 	}
-	waitUntil(10*time.Second, func() bool { return runtime.NumGoroutine() <= base })
-	return out
+	_ = n
+	return out, ok
 }
 
 func clobbered(v seqInv) bool {
@@ -802,6 +891,8 @@ func init() {
 				res.Sig += "/prefix-not-utf8"
 			}
 			switch {
+			case len(lines) > 0 && lines[len(lines)-1] == execBlocked:
+				res.Oracle = "execute-blocked: Execute did not return, or the function it started did not end, within the deadline"
 			case len(invs) > 1:
 				res.Oracle = "match-multiple: more than one function invoked"
 			case len(invs) > 0 && !strings.HasPrefix(text, prefix):
@@ -1019,9 +1110,11 @@ func init() {
 		Fixed: func() []Case {
 			var out []Case
 			one := func(prefix, target string, texts []string, cs ...cmdSpec) {
-				c := Case{prefix, target, strconv.Itoa(len(texts))}
-				c = append(c, texts...)
-				out = append(out, append(c, encodeCmds(cs)...))
+				for _, mode := range []string{"0", "1"} {
+					c := Case{prefix, target, mode, strconv.Itoa(len(texts))}
+					c = append(c, texts...)
+					out = append(out, append(c, encodeCmds(cs)...))
+				}
 			}
 			x := cmdSpec{name: "x"}
 			y := cmdSpec{name: "y", aliases: []string{"yy"}, minArgs: 2, help: true}
@@ -1061,48 +1154,79 @@ func init() {
 					n = r.Intn(11)
 				}
 			}
-			c := Case{prefix, Pick(r, "me", "me", "#chan"), strconv.Itoa(k)}
+			c := Case{prefix, Pick(r, "me", "me", "#chan"), Pick(r, "0", "1"), strconv.Itoa(k)}
 			c = append(c, texts...)
 			return append(c, encodeCmds(cs)...)
 		},
 		Run: func(c Case) Result {
-			if len(c) < 3 {
+			if len(c) < 4 {
 				return Result{Obs: "?args"}
 			}
 			prefix, target := c[0], c[1]
-			k := natLoose(c[2])
-			rest := c[3:]
+			k := natLoose(c[3])
+			rest := c[4:]
 			if k > len(rest) {
 				k = len(rest)
 			}
 			texts := rest[:k]
 			cs := decodeCmds(rest[k:])
+			// a handler of its own for every case: a wedged one is left behind with its goroutines
 			ch0, err := cmdhandler.New(prefix)
 			if err != nil {
 				return Result{Obs: "E", Sig: "new-fails", Oracle: "new-rejects-prefix: New fails for prefix " + strconv.Quote(prefix) + ": " + err.Error()}
 			}
-			st := &seqState{}
+			st := &seqState{ch: ch0, reent: c[2] == "1"}
 			st.reset()
 			ch, table := cmdBuild(ch0, cs, st.fn)
+			_ = ch
 			x := cmdSession()
 			event := func(text string) girc.Event {
 				return girc.Event{Source: &girc.Source{Name: "nick"}, Command: "PRIVMSG", Params: []string{target, text}}
 			}
+			var res Result
+			blocked := func(format string, a ...interface{}) {
+				atomic.AddInt32(&blockedVerdicts, 1)
+				if res.Oracle == "" {
+					res.Oracle = "execute-blocked: " + fmt.Sprintf(format, a...)
+				}
+			}
+			panics := make(chan interface{}, 2*k+2)
 
-			// pass 1: one Execute after the other; no function returns before the last one
+			// pass 1: one message after the other, each Execute on a goroutine of its own; no
+			// function returns before the last message has been handled.  A message is handled
+			// when its Execute has returned or its function has started, and nothing is on its
+			// way to the gate any more.
 			base := runtime.NumGoroutine()
 			lines := make([][]string, k)
+			stuck := false
 			for i, text := range texts {
 				st.mu.Lock()
 				st.cur = i
 				st.mu.Unlock()
 				mark := x.s.Mark()
-				ch.Execute(x.s.C, event(text))
-				st.settle(base)
+				before := atomic.LoadInt32(&st.arrived)
+				ret := st.execute(x.s.C, event(text), panics)
+				handled := waitUntil(blockDeadline(), func() bool {
+					return (isClosed(ret) || atomic.LoadInt32(&st.arrived) > before) && st.accounted(base)
+				})
+				if !handled {
+					blocked("message %d of %d %q: Execute neither returned nor started its function within %v while the functions of %d earlier messages were still running (re-entrant functions: %v)", i, k, text, blockDeadline(), before, st.reent)
+					stuck = true
+					break
+				}
 				lines[i] = cmdFlush(x, mark)
 			}
-			held := st.release(base)
-			var res Result
+			mark := x.s.Mark()
+			held, ended := st.release(base)
+			if !ended && !stuck {
+				blocked("after the gate was opened an Execute call or a function did not end within %v", blockDeadline())
+			}
+			late := cmdFlush(x, mark) // replies of calls that only got through after the release
+			select {
+			case p := <-panics:
+				panic(p)
+			default:
+			}
 			obs := make([]string, k)
 			nInv, nClob := 0, 0
 			for i, text := range texts {
@@ -1126,10 +1250,22 @@ func init() {
 					res.Oracle = fmt.Sprintf("%s [message %d of %d: %q]", o, i, k, text)
 				}
 			}
+			if len(late) > 0 && res.Oracle == "" {
+				res.Oracle = fmt.Sprintf("seq-late-reply: %d reply line(s) were only written after the gate was opened", len(late))
+			}
+			if n := atomic.LoadInt32(&st.addErrs); n > 0 && res.Oracle == "" {
+				res.Oracle = fmt.Sprintf("add-accepts-invalid: a function registered its own name again %d time(s) and Add accepted it", n)
+			}
 			res.Obs = strings.Join(obs, ";")
 			res.Sig = fmt.Sprintf("k%d/i%d", k, nInv)
+			if st.reent {
+				res.Sig += "/reentrant"
+			}
 			if nInv < 2 {
 				res.Sig = "trivial-fewer-than-two-invocations"
+			}
+			if stuck || !ended {
+				return res // the handler is wedged: leave it (and its goroutines) behind
 			}
 
 			// pass 2 (oracle only): the same messages from k goroutines at once; every function
@@ -1137,19 +1273,33 @@ func init() {
 			// run as in pass 1
 			st.reset()
 			base = runtime.NumGoroutine()
-			mark := x.s.Mark()
-			var wg sync.WaitGroup
+			mark = x.s.Mark()
+			rets := make([]chan struct{}, 0, k)
 			for _, text := range texts {
-				wg.Add(1)
-				go func(e girc.Event) {
-					defer wg.Done()
-					ch.Execute(x.s.C, e)
-				}(event(text))
+				rets = append(rets, st.execute(x.s.C, event(text), panics))
 			}
-			wg.Wait()
-			st.settle(base)
-			conc := st.release(base)
+			all := waitUntil(blockDeadline(), func() bool {
+				done := 0
+				for _, r := range rets {
+					if isClosed(r) {
+						done++
+					}
+				}
+				return (done == len(rets) || int(atomic.LoadInt32(&st.arrived)) >= nInv) && st.accounted(base)
+			})
+			if !all {
+				blocked("concurrent Execute of %d messages: only %d of the %d functions of the sequential pass started within %v", k, atomic.LoadInt32(&st.arrived), nInv, blockDeadline())
+			}
+			conc, ended2 := st.release(base)
+			if !ended2 && all {
+				blocked("concurrent Execute: a call or a function did not end within %v after the gate was opened", blockDeadline())
+			}
 			cmdFlush(x, mark)
+			select {
+			case p := <-panics:
+				panic(p)
+			default:
+			}
 			count := map[string]int{}
 			for _, v := range held {
 				count[strconv.Itoa(v.late.id)+"/"+v.late.origin]++
